@@ -180,6 +180,11 @@ func (c *Channel) ReadAll() ([]byte, error) {
 	b := c.Q.DequeueAll()
 
 	if b == nil {
+		if c.readLoopExited.Load() {
+			// nothing left and nothing will come: the read loop is gone (as Read reports it)
+			return nil, util.ErrConnectionError
+		}
+
 		return nil, nil
 	}
 
